@@ -84,7 +84,27 @@ class RefStopping(RefRungs):
                 exp = "EITHER"
             else:
                 exp = "CONTINUE" if self.better_or_equal(value, c) else "STOP"
-            return exp, "rung", {"n": len(entries), "cutoff": c, "value": value, "q": self.q(level)}
+            info = {"n": len(entries), "cutoff": c, "value": value, "q": self.q(level)}
+            if self.rush_candidates > 0:
+                # RUSH (RUSHScheduler / RUSHDecider docstrings): the first ``rush_candidates`` trials are threshold candidates. A
+                # candidate that continues under the quantile rule sets the threshold of the rung (the best such value); any
+                # other trial continues iff the quantile rule lets it AND it is no worse than the threshold of the rung.
+                key = (bracket if self.per_bracket else 0, level)
+                st = self.rush_thresholds.setdefault(key, {"thr": None, "unsure": False})
+                if int(trial) < self.rush_candidates:
+                    if exp == "CONTINUE":
+                        st["thr"] = value if st["thr"] is None or self.better(value, st["thr"]) else st["thr"]
+                    elif exp == "EITHER" and (st["thr"] is None or self.better(value, st["thr"])):
+                        st["unsure"] = True  # whether this candidate set the threshold depends on round-off
+                    info["rush"] = "candidate"
+                else:
+                    info["rush"] = {"threshold": st["thr"], "unsure": st["unsure"]}
+                    if st["unsure"]:
+                        info["rush_unjudged"] = True
+                    elif st["thr"] is not None and exp != "STOP" and self.better(st["thr"], value):
+                        exp = "STOP"
+                        info["rush_stop"] = True
+            return exp, "rung", info
         return "CONTINUE", "none", None
 
 
